@@ -22,5 +22,6 @@ CONSTANTS
   CRoot = 3
   DropLockBug = FALSE
   CachedLevelBug = TRUE
+  StaleParentReadBug = FALSE
 INVARIANTS LockFreeReadOK
 CHECK_DEADLOCK FALSE
